@@ -13,7 +13,7 @@ What is proved here is the lock discipline, not the scheduler (DESIGN.md 7.19):
   predicates `ReaderDiscipline`, `GlobalsInitOnly` (resp. `GuardedLocations`), the abstract
   program the table describes is disciplined, hence race free;
 * `reader_discipline_holds`, `globals_init_only_holds`, `guarded_locations_hold`,
-  `no_global_escapes_holds`, `immutable_locations_hold` (the last two check assumptions of the model): the predicates
+  `no_global_escapes_holds`, `immutable_locations_hold`, `must_reach_holds` (the last three check assumptions of the model and of the allow-list): the predicates
   evaluate to `true`, in the kernel, on the table regenerated from the current Go source
   (`Gen/Access.lean`, rewritten by `harness/cmd/extract-access` on every run of the check);
 * `c19_race_free`, `c19_guarded_race_free`: the two combined.
@@ -72,6 +72,7 @@ def demo : Facts where
   globals := [9]
   guards := [(5, 0, true)]
   immutable := [9]
+  mustReach := [(0, 1, true)]
   goStmts := 0
 
 /-- the same with the Lock of function 0 dropped -/
@@ -82,7 +83,7 @@ def demoLeak : Facts :=
   { demo with fns := demo.fns.take 1 ++ [⟨[⟨5, [(0, false)], 0⟩, ⟨9, [], 0⟩], [], [], [⟨9, [], 0⟩], false⟩] ++ demo.fns.drop 2 }
 
 example : ReaderDiscipline demo = true ∧ GlobalsInitOnly demo = true ∧ GuardedLocations demo = true ∧
-    NoGlobalEscapes demo = true ∧ ImmutableLocations demo = true := by decide
+    NoGlobalEscapes demo = true ∧ ImmutableLocations demo = true ∧ MustReach demo = true := by decide
 example : ReaderDiscipline demoBad = false ∧ GuardedLocations demoBad = false := by decide
 example : NoGlobalEscapes demoLeak = false ∧ GlobalsInitOnly demoLeak = true := by decide
 /-- a write of location 5 would break immutability if 5 were declared immutable -/
@@ -122,6 +123,11 @@ theorem no_global_escapes_holds : NoGlobalEscapes Gen.Access.facts = true := by 
 /-- Also an assumption check: what hangs below the shared package-level range tables (`Number`,
 `YRange` values) is never stored to through a pointer after package initialisation. -/
 theorem immutable_locations_hold : ImmutableLocations Gen.Access.facts = true := by decide +kernel
+
+/-- Supports the guard of the allow-list entry for the cache-miss region of `ToEntry`: every
+conversion that passed `beginEntry` ends with the cache store (control-flow fact re-derived from
+the source), so the nodes `Process` converted are cached and readers hit. -/
+theorem must_reach_holds : MustReach Gen.Access.facts = true := by decide +kernel
 
 /-- C19 for the abstract program extracted from the current source: N goroutines, each either a
 reader of the shared processed set or a pipeline on its own set, in any interleaving, never reach
